@@ -512,15 +512,17 @@ func GenCFF(t *tape.Tape, n int, cidKeyed bool) *cff.Outlines {
 				k = t.Range(1, k)
 			}
 			code := t.Range(0, 40)
+			last := 0 // the encoded glyphs must form the contiguous range 1..last
 			for g := 1; g <= k && code < 256; g++ {
 				enc[code] = glyph.ID(g)
+				last = g
 				code += 1 + t.Weighted(6, 1)
 			}
-			if k > 0 && t.Chance(1, 3) {
+			if last > 0 && t.Chance(1, 3) {
 				// multiply encoded glyph
 				for c := 255; c > 200; c-- {
 					if enc[c] == 0 {
-						enc[c] = glyph.ID(t.Range(1, k))
+						enc[c] = glyph.ID(t.Range(1, last))
 						break
 					}
 				}
